@@ -19,6 +19,8 @@ func init() {
 			{ID: "C11-R3", Doc: "untyped fast paths guarded by size and pointer-ness", Run: c11r3},
 			{ID: "C11-R4", Doc: "pointer-free kind tables agree", Run: c11r4},
 			{ID: "C11-R5", Doc: "zeroing writes exactly n elements", Run: c11r5},
+			{ID: "C11-R6", Doc: "constructors take the smallest column capacity; Ensure(n) yields exactly n rows", Run: c11r6},
+			{ID: "C07-R6", Doc: "the decoder writes only the rows of the destination view (shared)", Run: c07r6},
 		},
 	})
 }
